@@ -1151,7 +1151,7 @@ func main() {
 		}
 	}
 
-	for run.NOps < a.N {
+	for run.NOps < a.N && !run.Enough() {
 		epNo++
 		n := 4
 		if rng.Chance(1, 5) {
